@@ -9,8 +9,9 @@ Parts (DESIGN.md §2/C17):
                 Hamiltonians on arbitrary ordered mode subsets, and Hamiltonians that encode
                 one of the built-in gates) and ParentHamiltonian (thermal) inputs.
   fock_super    pure Fock simulator vs reference on <= 3-term superpositions of equal parity.
-  pf_cov_cutoff trigger region of the PureFockState.covariance_matrix finding (cutoff <= d),
-                enumerated; the search parts avoid it by construction and count it.
+  pf_cov_cutoff regression grid of the (fixed, d904cda) PureFockState.covariance_matrix
+                IndexError: every (d, cutoff <= d) enumerated; the search parts compare
+                covariance matrices at every cutoff as well.
   g_density_matrix  GaussianState.density_matrix (the observable the repository's own
                 equivalence tests compare) against the reference; kept in a part of its own
                 because it is not among the observables the property statement names.
@@ -75,12 +76,10 @@ ASSUMPTIONS = [
     "(above it it raises IndexError like its bosonic counterpart; treated as out of domain)",
     "NumPy connector, float64 only (connector independence is C09)",
 ]
-# Fractions of ALL evaluations, including the (mostly trivial) cases Hypothesis executes
-# while shrinking a failure; measured on a quiet tree: 0.32 / 0.115 / 0.45 / 0.12.  Runs that
-# find violations were seen to inflate `evaluations` 3.3x through shrinking, so the floors
-# leave a factor ~6: a run that found violations should exit 1, not 2.
-FLOORS = {"jw_string_below": 0.05, "interferometer_3plus_2particles": 0.02,
-          "active_gate": 0.07, "small_cutoff": 0.02}
+# Fractions of the evaluations of a quiet full run (the framework does not evaluate floors
+# with --part or when violations exist); measured: 0.32 / 0.115 / 0.45 / 0.12.
+FLOORS = {"jw_string_below": 0.20, "interferometer_3plus_2particles": 0.06,
+          "active_gate": 0.25, "small_cutoff": 0.06}
 
 TOL = 1e-9
 DET_DELTA = 1e-14
@@ -309,6 +308,16 @@ def check_gaussian_state(G, rho, d, tag, tol=TOL):
     return pg, cov
 
 
+def pf_covariance(F, d, cutoff):
+    """PureFockState.covariance_matrix at any cutoff (must not raise)."""
+    try:
+        return np.asarray(F.covariance_matrix)
+    except Exception as e:
+        raise Violation(B_PFCOV if cutoff <= d else "C17:PF:covariance_matrix:raises",
+                        f"PureFockState.covariance_matrix raised {type(e).__name__}: {e} "
+                        f"for d={d}, cutoff={cutoff} (the program itself runs)")
+
+
 def check_fock_state(F, rho, d, cutoff, tag, ctx):
     occs = R.occupations(d)
     pref = R.probabilities(rho)
@@ -339,16 +348,12 @@ def check_fock_state(F, rho, d, cutoff, tag, ctx):
                                 f"p{o}: Fock {a!r} reference {pref[R.basis_index(o)]!r}")
     if abs(complex(F.norm) - 1) > TOL or abs(pf.sum() - 1) > TOL:
         raise Violation(f"C17:{tag}:PF:probabilities:sum", f"norm {F.norm!r}")
-    cov = None
-    if cutoff >= d + 1:
-        cov = np.asarray(F.covariance_matrix)
-        cref = R.covariance(rho, d)
-        if maxdiff(cov, cref) > TOL:
-            raise Violation(f"C17:{tag}:PF:covariance:ref",
-                            f"Fock covariance differs from reference by "
-                            f"{maxdiff(cov, cref):.3e}")
-    else:
-        ctx.exclude(B_PFCOV)
+    cov = pf_covariance(F, d, cutoff)
+    cref = R.covariance(rho, d)
+    if maxdiff(cov, cref) > TOL:
+        raise Violation(f"C17:{tag}:PF:covariance:ref",
+                        f"Fock covariance (cutoff {cutoff}) differs from reference by "
+                        f"{maxdiff(cov, cref):.3e}")
     return pf, cov
 
 
@@ -557,14 +562,13 @@ def prop_equiv(case, ctx):
 
     # (i) differential
     covG = np.asarray(G.covariance_matrix)
-    if cutoff >= d + 1:
-        covF = np.asarray(F.covariance_matrix)
-        if maxdiff(covG, covF) > TOL:
-            cref = R.covariance(rho, d)
-            raise Violation("C17:diff:covariance",
-                            f"Gaussian vs Fock covariance differ by {maxdiff(covG, covF):.3e}"
-                            f" (G-ref {maxdiff(covG, cref):.2e}, PF-ref "
-                            f"{maxdiff(covF, cref):.2e})")
+    covF = pf_covariance(F, d, cutoff)
+    if maxdiff(covG, covF) > TOL:
+        cref = R.covariance(rho, d)
+        raise Violation("C17:diff:covariance",
+                        f"Gaussian vs Fock covariance differ by {maxdiff(covG, covF):.3e}"
+                        f" (G-ref {maxdiff(covG, cref):.2e}, PF-ref "
+                        f"{maxdiff(covF, cref):.2e})")
     for o in R.occupations(d):
         if sum(o) >= cutoff:
             continue
